@@ -411,3 +411,120 @@ class Driver:
 
     def close(self):
         self.real.close()
+
+
+# ====================================================================== one-to-one pair (OrmOneToOne.tla), in memory
+_M11 = {}
+
+
+def mapping11():
+    if _M11:
+        return _M11["P"], _M11["C"]
+    import sqlalchemy as sa
+    from sqlalchemy import orm
+
+    class Base(orm.DeclarativeBase):
+        pass
+
+    class P(Base):
+        __tablename__ = "p11"
+        id = sa.Column(sa.Integer, primary_key=True, autoincrement=False)
+        child = orm.relationship("C", back_populates="parent", uselist=False)
+
+    class C(Base):
+        __tablename__ = "c11"
+        id = sa.Column(sa.Integer, primary_key=True, autoincrement=False)
+        pid = sa.Column(sa.Integer, sa.ForeignKey("p11.id"))
+        parent = orm.relationship("P", back_populates="child")
+
+    orm.configure_mappers()
+    _M11.update(P=P, C=C)
+    return P, C
+
+
+class Driver11:
+    """replays OrmOneToOne walks on real (transient) objects; both scalar sides read from __dict__ after every step"""
+
+    def __init__(self, wid, workdir, ps, cs):
+        self.P, self.C = mapping11()
+        self.ps, self.cs = list(ps), list(cs)
+        self.obj = {}
+
+    def reset(self, state):
+        self.obj = {}
+        for n in self.ps:
+            self.obj[n] = self.P(id=int(n[1:]), child=None)
+        for n in self.cs:
+            self.obj[n] = self.C(id=int(n[1:]), parent=None)
+
+    def step(self, frm, act, to):
+        a, arg = act["a"], act["arg"]
+        o = self.obj
+        val = None if arg[1] == "none" else o[arg[1]]
+        try:
+            setattr(o[arg[0]], "child" if a == "SetChild" else "parent", val)
+            ret = "ok"
+        except Exception as e:
+            ret = type(e).__name__
+        if ret != act["ret"]:
+            return "call outcome %r, spec %r" % (ret, act["ret"])
+        got = {"child": {p: name(o[p].__dict__.get("child")) for p in self.ps}, "parent": {c: name(o[c].__dict__.get("parent")) for c in self.cs}}
+        exp = {"child": to["child"], "parent": to["parent"]}
+        if got != exp:
+            return "both sides: real %r, spec %r" % (got, exp)
+        return None
+
+    def close(self):
+        pass
+
+
+# ====================================================================== many-to-many pair (OrmManyToMany.tla), in memory
+class DriverMM:
+    """replays OrmManyToMany walks on real (transient) L / R objects; both lists read from __dict__ (order included) after every step"""
+
+    def __init__(self, wid, workdir, ls, rs):
+        from checks import ormgraph_shapes
+        m = ormgraph_shapes.models()
+        self.L, self.R = m["L"], m["R"]
+        self.ls, self.rs = list(ls), list(rs)
+        self.obj = {}
+
+    def reset(self, state):
+        self.obj = {n: self.L(id=int(n[1:]), rs=[]) for n in self.ls}
+        self.obj.update({n: self.R(id=int(n[1:]), ls=[]) for n in self.rs})
+
+    def _coll(self, n):
+        return getattr(self.obj[n], "rs" if n[0] == "l" else "ls")
+
+    def step(self, frm, act, to):
+        a, arg = act["a"], act["arg"]
+        o = self.obj
+        try:
+            if a == "Append":
+                self._coll(arg[0]).append(o[arg[1]])
+            elif a == "Insert":
+                self._coll(arg[0]).insert(0, o[arg[1]])
+            elif a == "Remove":
+                self._coll(arg[0]).remove(o[arg[1]])
+            elif a == "Pop":
+                self._coll(arg[0]).pop()
+            elif a == "Replace":
+                setattr(o[arg[0]], "rs" if arg[0][0] == "l" else "ls", [o[x] for x in arg[1:]])
+            else:
+                return "unknown action %r" % a
+            ret = "ok"
+        except Exception as e:
+            ret = type(e).__name__
+        if ret != act["ret"]:
+            return "call outcome %r, spec %r" % (ret, act["ret"])
+        got = {}
+        for n, ob in o.items():
+            lst = ob.__dict__.get("rs" if n[0] == "l" else "ls") or []
+            got[n] = [("r%d" if n[0] == "l" else "l%d") % x.__dict__["id"] for x in lst]
+        exp = {n: list(v) for n, v in to["coll"].items()}
+        if got != exp:
+            return "both lists: real %r, spec %r" % (got, exp)
+        return None
+
+    def close(self):
+        pass
